@@ -2883,6 +2883,26 @@ class RoAffine:
 
         return RoAffine(-self.raffine, -self.affine, self.rand_model)
 
+    def _widen(self, num_rand):
+        """
+        Coefficients of the random variables, with zero columns for random
+        variables declared after this expression was created.
+        """
+
+        raffine = self.raffine
+        rows, cols = raffine.shape
+        if cols >= num_rand:
+            return raffine
+
+        old_index = np.arange(rows * cols)
+        new_index = (old_index // cols) * num_rand + old_index % cols
+        expand = csr_matrix((np.ones(rows * cols), (new_index, old_index)),
+                            shape=(rows * num_rand, rows * cols))
+        const = np.hstack((raffine.const,
+                           np.zeros((rows, num_rand - cols))))
+
+        return Affine(raffine.model, expand @ raffine.linear, const)
+
     def __add__(self, other):
 
         if isinstance(other, (DecRule, DecRuleSub)):
@@ -2894,7 +2914,8 @@ class RoAffine:
             else:
                 left = self
                 right = other
-            raffine = left.raffine + right.raffine
+            num_rand = max(left.raffine.shape[1], right.raffine.shape[1])
+            raffine = (left._widen(num_rand) + right._widen(num_rand))
             affine = left.affine + right.affine
             if self.dec_model is not other.dec_model or \
                self.rand_model is not other.rand_model:
